@@ -758,13 +758,21 @@ func (w *Walker) step(fr *frame, in ssa.Instruction) {
 			id := w.fresh("recv")
 			r := &Term{Op: "recv", Args: []*Term{a}, ID: id, Typ: x.Type()}
 			if w.OnRecv != nil {
-				if t, ok := w.OnRecv(w, a, x.Type(), id); ok {
+				et := x.Type()
+				if tt, ok := et.(*types.Tuple); ok && tt.Len() > 0 {
+					et = tt.At(0).Type()
+				}
+				if t, ok := w.OnRecv(w, a, et, id); ok {
 					r = t
 				}
 			}
 			w.event(Event{Kind: "recv", Name: a.String(), Args: []*Term{a}, Result: r, Pos: x.Pos(), Instr: x, Fn: fn, Depth: depth})
 			if x.CommaOk {
 				ok := &Term{Op: "fresh", Name: fmt.Sprintf("recvok(%s)@%d", a.String(), id), Typ: types.Typ[types.Bool]}
+				if w.OnRecv != nil {
+					// a hooked receive models "closed" by the nil element
+					ok = mkBool(!r.IsNilConst())
+				}
 				fr.env[x] = &Term{Op: "tuple", Args: []*Term{r, ok}, Typ: x.Type()}
 			} else {
 				fr.env[x] = r
